@@ -206,8 +206,24 @@ pub fn c05_idempotent(rep: &mut Rep, seed: u64) {
     }
 }
 
-/// declared SALIDA / AUX lines are read as written (sign included)
+/// declared SALIDA / AUX lines are read as written (sign included); lines whose values are all zero (or add up to zero) are declared lines too
 pub fn c05_outputs(rep: &mut Rep) {
+    {
+        let text = "1,CONSUMO,CAL,ELECTRICIDAD,10,10,10\n1,CONSUMO,REF,ELECTRICIDAD,0,0,0\n1,SALIDA,REF,0,0,0\n5,SALIDA,CAL,6,0,-6\n2,CONSUMO,ACS,TERMOSOLAR,0,0,0\n2,PRODUCCION,TERMOSOLAR,0,0,0\n3,PRODUCCION,EL_INSITU,0,0,0\n4,CONSUMO,NEPB,RED1,0,0,0\n1,AUX,0,0,0";
+        rep.evals += 1;
+        match text.parse::<Components>() {
+            Ok(c) => {
+                let n = |f: &dyn Fn(&Energy) -> bool| c.data.iter().filter(|e| f(e)).count();
+                let (u, p, o, a) = (n(&|e| matches!(e, Energy::Used(_))), n(&|e| matches!(e, Energy::Prod(_))), n(&|e| matches!(e, Energy::Out(_))), n(&|e| matches!(e, Energy::Aux(_))));
+                if (u, p, o, a) != (4, 2, 2, 1) { rep.fail("C05.zero_lines_kept", text, format!("{} uses, {} productions, {} outputs, {} auxiliaries after reading; 4, 2, 2, 1 declared (lines of zeros are declared lines)", u, p, o, a)); }
+                if c.num_steps() != 3 { rep.fail("C05.zero_lines_kept", text, format!("{} steps after reading, 3 declared", c.num_steps())); }
+            }
+            Err(e) => rep.fail("C05.zero_lines_kept", text, format!("rejected: {}", e)),
+        }
+        let lone = "0,CONSUMO,ILU,ELECTRICIDAD,0,0,0,0";
+        rep.evals += 1;
+        match lone.parse::<Components>() { Ok(c) => if c.data.len() != 1 || c.num_steps() != 4 { rep.fail("C05.zero_lines_kept", lone, format!("{} components, {} steps after reading a single line of four zeros", c.data.len(), c.num_steps())); }, Err(e) => rep.fail("C05.zero_lines_kept", lone, format!("rejected: {}", e)) }
+    }
     let text = "1,CONSUMO,CAL,ELECTRICIDAD,10,10,10\n1,SALIDA,CAL,30,0,-1.5\n2,CONSUMO,REF,ELECTRICIDAD,10,10,10\n2,SALIDA,REF,3.0,0.0,-1.5\n-3,CONSUMO,REF,ELECTRICIDAD,1,1,1\n-3,SALIDA,REF,6,3,3\n2,AUX,1,0,2";
     rep.evals += 1;
     match text.parse::<Components>() {
